@@ -396,7 +396,12 @@ var loopCounter2 = [190]int8{
 }
 
 // thirdRootOne² + thirdRootOne + 1 = 0 in BW6761Fp
-var thirdRootOne = emulated.ValueOf[BaseField]("1968985824090209297278610739700577151397666382303825728450741611566800370218827257750865013421937292370006175842381275743914023380727582819905021229583192207421122272650305267822868639090213645505120388400344940985710520836292650")
+// A fresh element is built for every use: an emulated.Element caches state of
+// the compilation or execution it was last used in, so it must not be shared.
+func thirdRootOne() *emulated.Element[BaseField] {
+	e := emulated.ValueOf[BaseField]("1968985824090209297278610739700577151397666382303825728450741611566800370218827257750865013421937292370006175842381275743914023380727582819905021229583192207421122272650305267822868639090213645505120388400344940985710520836292650")
+	return &e
+}
 
 // MillerLoop computes the optimal Tate multi-Miller loop
 // (or twisted ate or Eta revisited)
